@@ -42,7 +42,7 @@ OpenState(AFS, d, n, c) ==
 \* sum over lo..hi of term(k)
 SumRange(lo, hi, term(_)) ==
   IF lo > hi THEN RZero ELSE RSumSeq([k \in 1..(hi - lo + 1) |-> term(lo + k - 1)])
-SumSet(T, term(_)) ==
+RSumOver(T, term(_)) ==
   LET RECURSIVE go(_)
       go(U) == IF U = {} THEN RZero ELSE LET x == CHOOSE x \in U : TRUE IN RAdd(term(x), go(U \ {x}))
   IN go(T)
@@ -73,18 +73,18 @@ IsBuy(R, j)  == R[j].act = "Buy"
 IsSell(R, j) == R[j].act = "Sell"
 
 \* shares acquired in the window by anybody (registered or not), in sale-period units
-Acq(R, i) == SumSet({ j \in Win(R, i) : IsBuy(R, j) }, LAMBDA j : AdjShares(R, i, j))
+Acq(R, i) == RSumOver({ j \in Win(R, i) : IsBuy(R, j) }, LAMBDA j : AdjShares(R, i, j))
 
 \* running share count of affiliate a after row j >= i, in sale-period units;
 \* P is the state after the sale at i
 RunAff(R, i, P, a, j) ==
   RAdd(P.sh[a],
-       SumSet({ k \in (i + 1)..j : R[k].af = a /\ (IsBuy(R, k) \/ IsSell(R, k)) },
+       RSumOver({ k \in (i + 1)..j : R[k].af = a /\ (IsBuy(R, k) \/ IsSell(R, k)) },
               LAMBDA k : IF IsBuy(R, k) THEN AdjShares(R, i, k) ELSE RNeg(AdjShares(R, i, k))))
 LastAfter(R, i) == IF After(R, i) = {} THEN i ELSE CHOOSE j \in After(R, i) : \A k \in After(R, i) : k <= j
 \* holdings of a at the end of the window
 Eop(R, i, P, a) == RunAff(R, i, P, a, LastAfter(R, i))
-Held(R, i, P)   == SumSet(DOMAIN P.sh, LAMBDA a : Eop(R, i, P, a))
+Held(R, i, P)   == RSumOver(DOMAIN P.sh, LAMBDA a : Eop(R, i, P, a))
 
 \* A later sale inside the window that sells more than its affiliate holds makes the history
 \* impossible; the code notices while looking ahead from the loss sale.
@@ -96,7 +96,7 @@ SflShares(R, i, P)   == RMin(R[i].q, RMin(Acq(R, i), Held(R, i, P)))
 SflRatio(R, i, P)    == RDiv(SflShares(R, i, P), R[i].q)
 
 Buyers(R, i)      == { R[j].af : j \in { j \in Win(R, i) : IsBuy(R, j) } }
-BuyTot(R, i, P)   == SumSet(Buyers(R, i), LAMBDA a : Eop(R, i, P, a))
+BuyTot(R, i, P)   == RSumOver(Buyers(R, i), LAMBDA a : Eop(R, i, P, a))
 OverApplied(R, i, P) == RLt(BuyTot(R, i, P), SflShares(R, i, P))
 \* the denied loss |sfl| is added to the cost base of the non-registered buying affiliates in
 \* proportion to their end-of-window holdings (relative to all buying affiliates)
@@ -208,7 +208,7 @@ StepAll(S, REG, R, i) == LET s == Step(S, REG, R, i) IN [s EXCEPT !.S = ApplyAdj
 StateOK(S, REG) ==
   /\ \A a \in DOMAIN S.sh : ~RNegative(S.sh[a]) /\ ~RNegative(S.acb[a])
   /\ \A a \in DOMAIN S.sh : REG[a] => RIsZero(S.acb[a])
-  /\ S.all = SumSet(DOMAIN S.sh, LAMBDA a : S.sh[a])
+  /\ S.all = RSumOver(DOMAIN S.sh, LAMBDA a : S.sh[a])
 
 \* cash-flow accumulators A = [proceeds, costs, roc, gains]
 ZeroAcc == [proceeds |-> RZero, costs |-> RZero, roc |-> RZero, gains |-> RZero]
@@ -218,7 +218,7 @@ AccStep(A, S, t, gain) ==
                                    !.gains = RAdd(@, gain)]
     [] t.act = "Roc"  -> [A EXCEPT !.roc = RAdd(@, RMul(RMul(t.p, S.sh[t.af]), t.r))]
     [] OTHER -> A
-TotalAcb(S) == SumSet(DOMAIN S.acb, LAMBDA a : S.acb[a])
+TotalAcb(S) == RSumOver(DOMAIN S.acb, LAMBDA a : S.acb[a])
 \* gains so far = net proceeds - purchase costs + returns of capital + cost base still held
 \* (a return of capital is money received: it lowers the cost base without being a gain yet)
 Conserved(A, S) == A.gains = RAdd(RAdd(RSub(A.proceeds, A.costs), A.roc), TotalAcb(S))
